@@ -83,7 +83,11 @@ def run (st : St) (args : List Str) : St × String × String × String :=
         let s := match r with
           | .ok _ => { st.s with regs := st.s.regs ++ [⟨.listener, m, MuxSpec.toksOf a, id, [], false⟩] }
           | .error _ => st.s
-        ({ st with w := w, s := s, next := id + 1 }, regOut r, "-", "listen-" ++ regOut r)
+        -- specification (C17): registration accepts only patterns of the one grammar
+        let spec := match Pattern.parse a with
+          | none => "panic"
+          | some ts => if Pattern.distinctTags ts then "-" else "panic"
+        ({ st with w := w, s := s, next := id + 1 }, regOut r, spec, "listen-" ++ regOut r)
     else if c = str "get" then
       match st.w.rootOf m with
       | none => (st, "panic", "-", "nomux")
